@@ -951,6 +951,43 @@ func (c *Ctx) evalCall(e *Expr, env *Env) *Val {
 		}
 		c.specErr("len of %s", e.Args[0])
 		return nil
+	case "fieldaddr":
+		// fieldaddr(p, "f"): the address &p.f of a field of the struct p points to (the value
+		// a call like p.f.Lock() receives as its receiver)
+		x := arg(0)
+		if x == nil || len(e.Args) != 2 || e.Args[1].Op != "str" || x.T == nil {
+			c.specErr("fieldaddr(pointer, \"field\")")
+			return nil
+		}
+		pt, ok := x.T.Underlying().(*types.Pointer)
+		if !ok {
+			c.specErr("fieldaddr: %s is not a pointer", e.Args[0])
+			return nil
+		}
+		stT := pt.Elem()
+		su, ok := stT.Underlying().(*types.Struct)
+		if !ok {
+			c.specErr("fieldaddr: not a pointer to a struct")
+			return nil
+		}
+		for i := 0; i < su.NumFields(); i++ {
+			if su.Field(i).Name() != e.Args[1].Name {
+				continue
+			}
+			ft := su.Field(i).Type()
+			rt := types.NewPointer(ft)
+			if isStruct(ft) {
+				return &Val{K: VScalar, T: rt, S: c.subAddr(stT, i, x.S)}
+			}
+			if _, ok := isScalarArray(ft); ok {
+				return &Val{K: VScalar, T: rt, S: c.arrFieldAddr(stT, i, x.S)}
+			}
+			fn := quoteSym(fmt.Sprintf("fld|%s|%d", typeKey(stT), i))
+			c.declareFun(fn, []string{"Int"}, "Int")
+			return &Val{K: VScalar, T: rt, S: sApp(fn, x.S)}
+		}
+		c.specErr("fieldaddr: no field %s", e.Args[1].Name)
+		return nil
 	case "inloop":
 		// inloop(N): the program point the clause is evaluated at (a return site, a call site)
 		// is reached from inside an iteration of loop N - it lies in the loop body or was
